@@ -159,29 +159,49 @@ func (*c34Engine) Generate(seed uint64, tier string) *Case {
 			p.Grep = "s" + fmt.Sprint(r.Range(1, 8)) + "\\b"
 		}
 	}
-	if r.Chance(0.45) {
-		pattern := Pick(r, []string{"/x/*.elk.test", "/x/gen_test.elk.test", "**/*.test", "/y/*.elk.test"})
-		var line int
-		switch k := r.Intn(6); {
-		case k < 2 && len(cases) > 0:
-			c := Pick(r, cases)
-			line = r.Range(c.Line, c.EndLine)
-		case k < 4 && len(cases) > 0:
-			c := Pick(r, cases)
-			if len(c.Suites) > 0 {
-				line = Pick(r, c.Suites)
-			} else {
-				line = c.Line
+	if r.Chance(0.5) {
+		// one to three --path filters (the flag is a list); later filters are biased
+		// towards the lines of one anchor case and of its enclosing blocks, so that
+		// combinations with a non-empty intersection are common
+		nPaths := 1
+		if r.Chance(0.4) {
+			nPaths = 2
+			if r.Chance(0.3) {
+				nPaths = 3
 			}
-		case k < 5:
-			line = r.Range(1, lines+2)
-		default:
-			line = -1
 		}
-		if line < 0 {
-			p.Paths = append(p.Paths, pattern)
-		} else {
-			p.Paths = append(p.Paths, fmt.Sprintf("%s:%d", pattern, line))
+		var anchor *tcase
+		if len(cases) > 0 {
+			c := Pick(r, cases)
+			anchor = &c
+		}
+		for k := 0; k < nPaths; k++ {
+			pattern := Pick(r, []string{"/x/*.elk.test", "/x/gen_test.elk.test", "**/*.test", "/x/*.elk.test", "/y/*.elk.test"})
+			var line int
+			c := anchor
+			if c != nil && k > 0 && r.Chance(0.3) {
+				o := Pick(r, cases)
+				c = &o
+			}
+			switch j := r.Intn(6); {
+			case j < 2 && c != nil:
+				line = r.Range(c.Line, c.EndLine)
+			case j < 4 && c != nil:
+				if len(c.Suites) > 0 {
+					line = Pick(r, c.Suites)
+				} else {
+					line = c.Line
+				}
+			case j < 5:
+				line = r.Range(1, lines+2)
+			default:
+				line = -1
+			}
+			if line < 0 {
+				p.Paths = append(p.Paths, pattern)
+			} else {
+				p.Paths = append(p.Paths, fmt.Sprintf("%s:%d", pattern, line))
+			}
 		}
 	}
 	b, _ := json.Marshal(&p)
@@ -373,7 +393,7 @@ func (*c34Engine) Execute(t *testing.T, c *Case) *Verdict {
 	}
 	sort.Strings(got)
 	v.Nontrivial = len(p.Cases) > 0 && (p.Grep != "" || len(p.Paths) > 0 || res.Switches > 2)
-	v.Extra = map[string]int64{"cases": int64(len(p.Cases)), "selected": int64(len(want)), "with_grep": b2i(p.Grep != ""), "with_path": b2i(len(p.Paths) > 0), fmt.Sprintf("capacity_%d", p.Capacity): 1, "empty_selection": b2i(len(want) == 0)}
+	v.Extra = map[string]int64{"cases": int64(len(p.Cases)), "selected": int64(len(want)), "with_grep": b2i(p.Grep != ""), "with_path": b2i(len(p.Paths) > 0), fmt.Sprintf("paths_%d", len(p.Paths)): 1, fmt.Sprintf("capacity_%d", p.Capacity): 1, "empty_selection": b2i(len(want) == 0)}
 	v.Sample = map[string]any{"filters": filters, "cases": len(p.Cases), "selected": want, "started": rep.started}
 	grepAndLine := p.Grep != "" && len(p.Paths) > 0
 	if d := diffMultiset(want, got); d != "" {
@@ -456,6 +476,13 @@ func (*c34Engine) Shrink(c *Case) []*Case {
 		q = p
 		q.Paths = nil
 		mk(q)
+	}
+	if len(p.Paths) > 1 {
+		for k := range p.Paths {
+			q := p
+			q.Paths = append(append([]string{}, p.Paths[:k]...), p.Paths[k+1:]...)
+			mk(q)
+		}
 	}
 	return out
 }
